@@ -397,6 +397,15 @@ def open_finding(fid):
                for f in common.load_findings()['findings'])
 
 
+def finding_for_clause(clause):
+    """An open finding of this family recorded for exactly this verdict clause."""
+    for f in common.load_findings()['findings']:
+        m = f.get('match') or {}
+        if f['status'] == 'open' and m.get('family') == 'seeds' and m.get('clause') == clause:
+            return f
+    return None
+
+
 def run(prop, tier):
     assert prop == 'C13'
     res = Result(prop, tier)
@@ -486,7 +495,12 @@ def run(prop, tier):
         if v['conf'] != 'conforms':
             res.drift.append({'where': v['conf'], 'execution': what})
         if status == 'viol':
-            if clause.startswith('S8:') and open_finding('S8'):
+            kf = finding_for_clause(clause)
+            if kf is not None:
+                known[clause] = known.get(clause, 0) + 1
+                if known[clause] == 1:
+                    res.known_finding(kf['id'], kf['what'] + ' e.g. ' + what)
+            elif clause.startswith('S8:') and open_finding('S8'):
                 known[clause] = known.get(clause, 0) + 1
                 if clause not in known_ex or len(what) < len(known_ex[clause]['execution']):
                     known_ex[clause] = {
